@@ -10,6 +10,7 @@ the GROUND/RESIZE state machine with its `#ifndef NDEBUG` checks, `endResize` = 
 and the reverse table of `GlobalLookupIndexSet`.  Core Lean only.
 -/
 import DuneVerif.Common.Proto
+import DuneVerif.Model.C03Expr
 
 namespace DV.C03
 
@@ -27,11 +28,7 @@ structure Pair where
   l : LIdx
   deriving DecidableEq, Repr, Inhabited
 
-/-- `ParallelIndexSetState` -/
-inductive St where
-  | ground
-  | resize
-  deriving DecidableEq, Repr, Inhabited
+-- `ParallelIndexSetState` is `St` (Model/C03Expr.lean, shared with the generated file Gen/C03.lean)
 
 /-- the members of `ParallelIndexSet` -/
 structure ISet where
@@ -158,7 +155,28 @@ def searchLoop (xs : List Pair) (g : Int) : Nat → Int → Int → Option Int
 def search (xs : List Pair) (g : Int) : Option Int :=
   searchLoop xs g xs.length 0 ((xs.length : Int) - 1)
 
-/-- `exists(global)`; `none` = undefined behaviour (never, theorem `exists_total`) -/
+/-! The C++ variables are `int`.  The same loop with the 32-bit range made explicit: `none` as soon as `size()-1`,
+`high + low` or `probe + 1` is not representable (signed overflow = undefined behaviour).  Theorem
+`search_int32_safe`: for every list of at most 2^30 entries this never happens and the result is that of `search`. -/
+def fitsI32 (i : Int) : Bool := -2147483648 ≤ i && i ≤ 2147483647
+
+def searchLoopI32 (xs : List Pair) (g : Int) : Nat → Int → Int → Option Int
+  | 0, low, high => if low < high then none else some low
+  | fuel + 1, low, high =>
+    if low < high then
+      if !fitsI32 (high + low) then none else
+      let probe := Int.tdiv (high + low) 2
+      match gAt xs probe with
+      | none => none
+      | some gp =>
+        if gp ≥ g then searchLoopI32 xs g fuel low probe
+        else if !fitsI32 (probe + 1) then none else searchLoopI32 xs g fuel (probe + 1) high
+    else some low
+
+def searchI32 (xs : List Pair) (g : Int) : Option Int :=
+  if !fitsI32 ((xs.length : Int) - 1) then none else searchLoopI32 xs g xs.length 0 ((xs.length : Int) - 1)
+
+/-- `exists(global)`; `none` = undefined behaviour (never, theorem `lookups_total`) -/
 def existsL (xs : List Pair) (g : Int) : Option Bool :=
   match search xs g with
   | none => none
